@@ -1029,6 +1029,7 @@ func main() {
 			h.run("ParseACM/size-field", dParseACM, nil, m, nil, fmt.Sprintf("%s Size field := %#x", name, v))
 		}
 	}
+	h.boundaryFamilies(acmFiles)
 	for i := 0; i < q(30, 300); i++ {
 		h.run("LookupACMSize/random", dLookupACMSize, nil, h.rbytes(h.randomLen(200)), nil, "random")
 		h.run("ParseACM/random", dParseACM, nil, h.rbytes(h.randomLen(q(3000, 65536))), nil, "random")
@@ -1502,7 +1503,7 @@ func main() {
 	c.Rep.Notes = append(c.Rep.Notes,
 		"decoders 1..20 are modelled (Coq case per call up to "+fmt.Sprint(h.maxModelLen)+" input bytes); tools.ParseACM, UnmarshalYAML, registers.New, tpmeventlog.Parse and the third-party parsers behind them (fiano, go-attestation, yaml, json, pem/x509, aes-gcm) are fuzzed with the oracle only",
 		"the repo-owned logic around third-party parsers is compared with its model on what the third-party call returned: CPem = the PEM block loops of parsePrivateKey / ReadPubKey over the pem.Decode calls and x509 verdicts observed on the same bytes (each call is also checked against the contract 'strictly shorter rest'); CRegion / CCalc = GetRegion / CalcImageOffset over the fiano probes (descriptor record, fmap area, BIOS region)",
-		"extra.input_distribution: per decoder the sizes of the generated inputs, the outcome classes and the kinds of errors; extra.condition_coverage: every comparison the decoders make on their input, evaluated on the generated inputs (times true / false); extra.constant_conditions must be empty",
+		"extra.decoder_input_distribution: per decoder the sizes of the generated inputs, the outcome classes and the kinds of errors; extra.condition_coverage: every comparison the decoders make on their input, evaluated on the generated inputs (times true / false); extra.constant_conditions must be empty",
 		"all calls of a run go through one child process (restarted only after a crash or a time-out): the decoders see each other's leftovers, if there were any (the result-origin tie shows there is no package-level state to leave)",
 		"each call runs in a child process with RLIMIT_AS = 4 GiB and a 2 s deadline (the first time-out of a decoder is confirmed with a 20 s deadline before it counts); allocation = runtime.MemStats.TotalAlloc delta around the call")
 	c.Finish("model and implementation agree on every call: same outcome class (value/error/panic/out-of-memory), same decoded value (flattened field by field), " +
